@@ -17,7 +17,7 @@ META = {
                    "the checks / sort+dedup); host-bits guards and provenance in the Prefix constructors; the decoder guard "
                    "that justifies the one unsafe SmallAsnSet constructor call; Eq/Ord/Hash of RouteOrigin read exactly the "
                    "same projections; shift sites enumerated; the step table of each of the four merge iterators (what is "
-                   "advanced / yielded for every combination of heads and their order) equals the table of its set operation; Prefix::covers is false on every path feasible for a more specific self; Prefix::covers ⇔ range inclusion for every pair of lengths of either family (the returned expression evaluated over 128-bit vectors of GF(2) forms in the address bits, compared with {s_i = o_i : i < len(self)} in reduced row echelon form; no full-width shift on a feasible path).",
+                   "advanced / yielded for every combination of heads and their order) equals the table of its set operation; Prefix::covers is false on every path feasible for a more specific self; Prefix::covers ⇔ range inclusion for every pair of lengths of either family (the returned expression evaluated over 128-bit vectors of GF(2) forms in the address bits, compared with {s_i = o_i : i < len(self)} in reduced row echelon form; no full-width shift on a feasible path); Bits::clear_host / into_max / is_host_zero decided the same way for every length 0..=128; every byte stored into a FamilyAndLen is a valid code (all 256 values of the octet it depends on tried).",
     "not_decided": ["totality/transitivity of Ord",
                     "correctness of the merge iterators beyond their single-step tables (that the inputs are ascending)", "text round trip as value identity"],
     "trusted_base": ["std sort/dedup/binary_search", "derive(PartialEq, Hash) compare/hash all fields",
@@ -929,6 +929,7 @@ def run(ctx):
     check_covers_family(ctx, f)
     check_covers_inclusion(ctx, f)
     masks_decided = check_bits_masks(ctx, f) or set()
+    check_family_byte_values(ctx, f)
 
     # ---- C13.e shift sites ---------------------------------------------------------------
     shifts = []
@@ -2291,3 +2292,88 @@ def check_bits_masks(ctx, f):
                detail={"paths": len(ps), "lengths": _W + 1, "path_evaluations": judged, "counterexamples": bad[:5], "n_counterexamples": len(bad)})
     ctx.floor("R-REG", "mask helpers of Bits decided for every length", seen, 3)
     return decided
+
+
+def check_family_byte_values(ctx, f):
+    """Every byte stored into a `FamilyAndLen` is one of the codes the type's accessors are written for: 0..=32 (IPv4 length),
+    0x40 (IPv6 /128) or 0x80..=0xFF (IPv6 length l as l ^ 0xFF) — decided per value: where the stored expression and the
+    branch conditions on the way depend on one octet-sized unknown (a parameter, a generated byte), all 256 values are
+    tried, the branches they decide are taken as decided, and whenever the storing site stays reachable the stored value
+    must be a code.  (Derived `Eq` / `Hash` compare this byte: a second spelling of the same prefix — 0x7F for a /128 —
+    compares unequal to the parsed one while ordering and text say they are the same.)"""
+    adt = A + "FamilyAndLen"
+    VALID = set(range(0, 33)) | {0x40} | set(range(0x80, 0x100))
+    n = 0
+    for b, bi, si, st in aggregates_of(f, adt):
+        if is_derived(b) or b.is_cleanup(bi):
+            continue
+        s = K.sym_of(b)
+        ops = st["rv"].get("ops") or []
+        if len(ops) != 1:
+            continue
+        t = strip_deep(s.operand(ops[0]))
+
+        def leaves_of(x, out):
+            x = strip_deep(x)
+            if x[0] in ("call", "variant", "field", "param", "var", "mvar", "index"):
+                out.add(render(x))
+                return
+            if x[0] in ("bin",):
+                leaves_of(x[2], out); leaves_of(x[3], out)
+            elif x[0] in ("un",):
+                leaves_of(x[2], out)
+            elif x[0] == "cast":
+                leaves_of(x[1], out)
+            elif x[0] != "const":
+                out.add(render(x))
+        lv = set()
+        leaves_of(t, lv)
+        key = "%s:stores-a-code@%d" % (short(root_fn(f, b.name)), n)
+        what = "%s stores into FamilyAndLen only 0..=32, 0x40 or 0x80..=0xFF (all 256 values of the octet it depends on tried)" % short(root_fn(f, b.name))
+        n += 1
+        if len(lv) > 1:
+            ctx.ob("R-REG", key, True, what + " — no verdict: the stored byte depends on several unknowns", where=b.where(bi, si), noverdict=True)
+            continue
+        leaf = next(iter(lv)) if lv else None
+        switches = []
+        for sb, blk in enumerate(b.blocks):
+            tt = blk["term"]
+            if tt["t"] == "switch" and not blk.get("cleanup"):
+                switches.append((sb, tt, strip_deep(s.operand(tt["discr"]))))
+        bad, unknown, undecided = [], False, False
+        for v in range(256):
+            env = {leaf: v} if leaf else {}
+            dead = set()
+            for sb, tt, d in switches:
+                val = K.eval_term(d, env)
+                if val is None and d[0] == "discr":
+                    c = strip_deep(d[1])
+                    if c[0] == "call" and (c[3] or {}).get("name") == "cmp" and len(c[2]) == 2:
+                        x, y = K.eval_term(c[2][0], env), K.eval_term(c[2][1], env)
+                        if x is not None and y is not None:
+                            val = 255 if x < y else 0 if x == y else 1       # discriminants of Ordering as rustc prints them
+                            if val == 255 and not any(ev == 255 for ev, _ in b.switch_edges(sb)) and any(ev == -1 for ev, _ in b.switch_edges(sb)):
+                                val = -1
+                if val is None:
+                    if leaf and leaf in render(d) and bi in b.reachable(sb):
+                        undecided = True        # a test on the same unknown that cannot be evaluated: no verdict
+                    continue
+                edges = b.switch_edges(sb)
+                taken = [tb for ev, tb in edges if ev is not None and ev == val] or [tt["otherwise"]]
+                dead.update((sb, tb) for _, tb in edges if tb not in taken)
+            if bi not in b.reachable(0, removed_edges=dead):
+                continue
+            val = K.eval_term(t, env)
+            if val is None:
+                unknown = True
+                break
+            if (val & 0xFF) not in VALID:
+                bad.append({"octet": v, "stored": val & 0xFF})
+            if not leaf:
+                break
+        if unknown or (undecided and bad):
+            ctx.ob("R-REG", key, True, what + " — no verdict: %s" % ("the stored expression is outside the evaluator" if unknown else
+                   "a branch on the same unknown could not be evaluated"), where=b.where(bi, si), noverdict=True)
+            continue
+        ctx.ob("R-REG", key, not bad, what, where=b.where(bi, si), detail={"depends_on": leaf, "stored": render(t)[:100], "not_a_code_for": bad[:5] or None})
+    ctx.floor("R-REG", "sites storing a FamilyAndLen byte", n, 3)
